@@ -207,9 +207,10 @@ func fetchVCLSnippets(fetcher Fetcher) (ScopedSnippets, IncludeSnippets, error) 
 		return nil, nil, errors.WithStack(err)
 	}
 
-	// Sort by priority
-	sort.Slice(snippets, func(i, j int) bool {
-		return snippets[i].Priority > snippets[j].Priority
+	// Sort by ascending priority: Fastly executes the snippet with the lower number first.
+	// Snippets of equal priority keep the order they were fetched in.
+	sort.SliceStable(snippets, func(i, j int) bool {
+		return snippets[i].Priority < snippets[j].Priority
 	})
 
 	scoped := ScopedSnippets{}
